@@ -311,10 +311,38 @@ def predictions(case, kpaths, seed, n):
     style = getattr(case, 'val_style', 'smallint' if dom_name == 'real' else 'mixed')
     V = case.scalar_vars(); pre = case.pre(V)
     scal = [a for a in case.args if isinstance(a, Scal)]
+    # buffer elements constrained by the precondition (index tensors, masks, divisors): taken from a solver model
+    constrained = {}
+    names = set()
+    def walk(e, seen=set()):
+        if e.get_id() in seen: return
+        seen.add(e.get_id())
+        if z3.is_const(e) and e.decl().kind() == z3.Z3_OP_UNINTERPRETED: names.add(e.decl().name())
+        for ch in e.children(): walk(ch, seen)
+    for c_ in pre:
+        if z3.is_expr(c_): walk(c_)
+    bufvars = {}
+    for a in case.args:
+        if isinstance(a, Buf) and a.role != 'out':
+            for i in range(a.n):
+                if a.var(i) in names: bufvars[a.var(i)] = (a, i)
     for k in range(n):
         inp = None
         for attempt in range(12):
             cand = rand_inputs(case, rng, style)
+            if bufvars and (attempt > 0 or len(bufvars) > 3):
+                sm = z3.Solver(); sm.set('timeout', 5000); sm.add([c_ for c_ in pre if z3.is_expr(c_)]); sm.set('random_seed', rng.randint(1, 10 ** 6))
+                # random hints that are dropped when inconsistent
+                for nm, (a, i) in bufvars.items():
+                    if a.kind == 'i' and rng.random() < 0.7:
+                        sm.push(); sm.add(z3.BitVec(nm, a.w) == int.from_bytes(rand_elem(rng, a, 'smallint' if rng.random() < 0.7 else style), 'little'))
+                        if sm.check() != z3.sat: sm.pop()
+                if sm.check() == z3.sat:
+                    mm = sm.model()
+                    for nm, (a, i) in bufvars.items():
+                        if a.kind == 'f' and dom_name == 'real': continue
+                        v = mm.eval(z3.BitVec(nm, a.w), model_completion=True).as_long()
+                        bs = bytearray(cand[a.name]); bs[i * a.es:(i + 1) * a.es] = v.to_bytes(a.es, 'little'); cand[a.name] = bytes(bs)
             for a in scal: cand[a.name] = (a.value & ((1 << a.w) - 1)) if a.value is not None else None
             bsubs = subst_map(case, {k_: v for k_, v in cand.items() if v is not None}, dom_name, skip_scalars=True)
             resid = [eval_term(c, bsubs) for c in pre]
@@ -375,7 +403,10 @@ def conc_value(v, a, subs, dom):
         b = f.bits()
         if isinstance(b, int): return ['b', b]
         e = eval_term(b, subs)
-        return ['b', e.as_long()] if z3.is_bv_value(e) else None
+        if z3.is_bv_value(e): return ['b', e.as_long()]
+        from .fdom import uf_concrete
+        u = uf_concrete(e)
+        return ['b', u] if u is not None else None
     b = as_bits(v, a.w)
     if isinstance(b, int): return ['b', b]
     e = eval_term(bv(b, a.w), subs)
